@@ -290,14 +290,14 @@ func init() {
 		peers := c07PeerList(a[3])
 		first, claimant := a[4], a[5]
 		ord := c07Order(peers, sid)
-		if len(ord) == 0 || (first == "silent" && ord[0] == self) {
+		if len(ord) == 0 || (strings.HasPrefix(first, "silent") && ord[0] == self) {
 			return "selfcoord"
 		}
 		c := ord[0]
 		// whom the relayer follows in the second attempt, by the harness' own computation (scenario shaping only)
 		excl := []peer.ID{}
 		switch {
-		case first == "silent":
+		case strings.HasPrefix(first, "silent"):
 			excl = []peer.ID{c}
 		case first[0] == 'c' && first != "cnone":
 			excl = []peer.ID{c07Peer(first[1:])}
@@ -491,7 +491,12 @@ func init() {
 	// wait <self> <sid> <peers> <events>  — real Execute on a relayer that is NOT the coordinator.
 	//   events `;`-separated: i<from> initiate, s<from>:<tag> start carrying params tag, x<from> start with a malformed
 	//   payload, f<from> fail.   => r=<ready targets in order>;run=<tags>;res=<ok|fail|other|…>
-	ops["C07.wait"] = func(a []string) string {
+	// net <self> <sid> <peers> <events> — as `wait`, but every message is an ENVELOPE fed through the repository's real
+	//   receive path (Libp2pCommunication.ProcessMessagesFromStream) on a stream whose connection is authenticated as
+	//   <conn>; `<kind><conn>@<claimed>[:tag]` additionally writes a `from` field naming <claimed> into the envelope
+	//   (a committee member pretending to be the coordinator). What the real receive path dispatches is handed on.
+	waitBody := func(a []string) string {
+		viaNet := len(a) > 4 && a[4] == "net"
 		self := c07Peer(a[0])
 		sid := c07Sid(a[1])
 		peers := c07PeerList(a[2])
@@ -504,6 +509,10 @@ func init() {
 		h := c07NewHost(self, c07Peers)
 		co := c07Coordinator(h, cm)
 		proc := &c07Proc{sid: sid, valid: peers, retryable: true}
+		var net *c07Net
+		if viaNet {
+			net = c07NewNet(self)
+		}
 		ctx, cancel := context.WithCancel(context.Background())
 		defer cancel()
 		done := make(chan struct{})
@@ -522,7 +531,11 @@ func init() {
 			if i := strings.Index(rest, ":"); i >= 0 {
 				rest, tag = rest[:i], rest[i+1:]
 			}
-			from := c07Peer(rest)
+			claimed := ""
+			if i := strings.Index(rest, "@"); i >= 0 {
+				rest, claimed = rest[:i], c07Peer(rest[i+1:]).Pretty()
+			}
+			from := c07Peer(rest) // the authenticated sender
 			var typ comm.MessageType
 			payload := []byte{}
 			switch kind {
@@ -542,7 +555,15 @@ func init() {
 			if running && kind != 'f' {
 				continue // a process is running: waitForStart no longer reads (scenario shaping, see Model/C07.lean)
 			}
-			switch r := cm.deliver(sid, typ, from, payload, done); r {
+			msg := &comm.WrappedMessage{MessageType: typ, SessionID: sid, Payload: payload, From: from}
+			if viaNet {
+				var r string
+				if msg, r = net.receive(from, claimed, typ, sid, payload); r != "ok" {
+					note = ";" + r
+					break loop
+				}
+			}
+			switch r := cm.deliverMsg(msg, done, false); r {
 			case "ok":
 			case "done":
 				break loop
@@ -585,7 +606,9 @@ func init() {
 		}
 		return "r=" + joinOr(rs, ",") + ";run=" + joinOr(runs, ",") + ";res=" + c07ErrClass(rerr) + note
 	}
-	for _, k := range []string{"C07.initiate", "C07.wait", "C07.retry2"} {
+	ops["C07.wait"] = waitBody
+	ops["C07.net"] = func(a []string) string { return waitBody(append(append([]string{}, a...), "net")) }
+	for _, k := range []string{"C07.initiate", "C07.wait", "C07.retry2", "C07.net"} {
 		ops[k] = c07Escalating(ops[k])
 	}
 	gens["C07"] = genC07
@@ -860,6 +883,57 @@ func genC07(g *G) {
 		g.Emit("wait", self, sid, joinOr(ps, ","), joinOr(evs, ";"))
 	}
 	genC07Retry(g)
+	genC07Net(g)
+}
+
+// genC07Net: envelopes through the real receive path; a committee member (and an outsider) writes the coordinator's id
+// into the origin field of initiate / start / fail envelopes it sends over its own connection.
+func genC07Net(g *G) {
+	sid := c07Sids[0]
+	ord := c07Order(c07PeerList("0,1,2"), sid)
+	c, self, o := c07Tok(ord[0]), c07Tok(ord[1]), c07Tok(ord[2])
+	alpha := []string{"i" + c, "i" + o, "i" + o + "@" + c, "s" + c + ":1", "s" + o + ":2", "s" + o + "@" + c + ":3", "x" + o + "@" + c,
+		"f" + o, "f" + o + "@" + c, "f" + c, "i" + c + "@" + o, "s7@" + c + ":4", "f" + self + "@" + c}
+	c07Seqs(alpha, g.Count(2, 3), func(seq []string) {
+		g.Emit("net", self, hx([]byte(sid)), "0,1,2", joinOr(seq, ";"))
+	})
+	for i := 0; i < g.Count(150, 8000); i++ {
+		n := 2 + g.Intn(6)
+		ps := c07RandPeers(g, n)
+		// (session ids travel inside the JSON envelope: text, as the relayer's own ids are)
+		rsid := hx([]byte(g.Pick(c07Sids)))
+		if g.Bool() {
+			rsid = hx([]byte(itoa(g.Intn(3)) + "-" + itoa(g.Intn(3)) + "-" + itoa(g.Intn(100000)) + "-" + itoa(g.Intn(7))))
+		}
+		ro := c07Order(c07PeerList(joinOr(ps, ",")), c07Sid(rsid))
+		me := c07Tok(ro[1+g.Intn(n-1)])
+		co := c07Tok(ro[0])
+		evs := []string{}
+		for j, m := 0, g.Intn(9); j < m; j++ {
+			conn := co
+			if g.Intn(3) != 0 {
+				conn = itoa(g.Intn(10))
+			}
+			claim := ""
+			switch g.Intn(4) {
+			case 0:
+				claim = "@" + co
+			case 1:
+				claim = "@" + itoa(g.Intn(10))
+			}
+			switch g.Intn(6) {
+			case 0, 1:
+				evs = append(evs, "i"+conn+claim)
+			case 2, 3:
+				evs = append(evs, "s"+conn+claim+":"+itoa(g.Intn(5)))
+			case 4:
+				evs = append(evs, "f"+conn+claim)
+			case 5:
+				evs = append(evs, "x"+conn+claim)
+			}
+		}
+		g.Emit("net", me, rsid, joinOr(ps, ","), joinOr(evs, ";"))
+	}
 }
 
 // genC07Retry: the SECOND attempt through the real Execute (static coordinator silent, re-election): forged and genuine
